@@ -45,6 +45,10 @@ def expected (fam lk rk : String) (a b : Int) : Option String :=
     some (if a = 0 ∧ b = 0 then panic "GcdZeroZero" else okI (Nat.gcd a.natAbs b.natAbs))
   | _ => none
 
+/-- `Iterator::fold(init, op)` over the items: the shape every `Sum` / `Product` impl has
+    (`Props/C15Forms.fold_forms`, `sum_is_left_fold`) -/
+def foldForm {α : Type} (op : α → α → α) (init : α) (xs : List α) : α := xs.foldl op init
+
 def dispatch : Dispatch := fun _W op args =>
   match op, args with
   | "form", [fam, lk, rk, a, b] => do
@@ -64,6 +68,17 @@ def dispatch : Dispatch := fun _W op args =>
     let _ ← parseInt na; let d1 ← parseNat da; let _ ← parseInt nb; let d2 ← parseNat db
     if d1 = 0 ∨ d2 = 0 then none
     else if q == "R" || q == "X" then pure (ok "agree") else none
+  -- `Sum` / `Product` (iter.rs of the three crates: `iter.fold(INIT, OP)`, Gen/FormsGlue `*_Sum_fn`, `*_impl_fold_iter_fn`):
+  -- the left fold of the operator over the items; integers by value, floats by agreement of the forms
+  -- (rational/src/iter.rs is not compiled into dashu-ratio at this commit: no `mod iter;`)
+  | "fold", ty :: kind :: items =>
+    if kind != "sum" && kind != "product" then none
+    else if ty == "u" || ty == "i" then do
+      let xs ← items.mapM parseInt
+      if ty == "u" && xs.any (· < 0) then none
+      else pure (okI (if kind == "sum" then foldForm (· + ·) 0 xs else foldForm (· * ·) 1 xs))
+    else if ty == "z2" || ty == "h10" then some (ok "agree")
+    else none
   | "fform", inst :: _fam :: shape :: _ =>
     if (inst == "z2" || inst == "h10") && (shape == "FF" || shape == "FN" || shape == "NF" || shape == "FS")
     then some (ok "agree") else none
